@@ -30,6 +30,8 @@ func runC19(r *an.Run) {
 	c19LineMap(r)
 	c19RejectionNoRewrite(r)
 	lineInfoReceiver(r, "R3-line-map")
+	r.Rule("R2-token-agreement")
+	c19NameIndex(r)
 }
 
 var positionedHelpers = map[string]string{
